@@ -82,6 +82,12 @@ fn check(case: &Case, obs: &mut Obs) -> CheckResult {
     if s.ended_idle {
         obs.label("worker-exited-idle");
     }
+    if s.hot_loop {
+        obs.label("refetch-hot-loop(min_delay=0)");
+    }
+    if s.budget_exhausted {
+        obs.label("tick-budget-exhausted");
+    }
     let has_nometa = case.ops.iter().any(|o| matches!(o, Op::Fetch(FetchSpec::Paths(v)) if v.iter().any(|p| p.meta != Meta::Full)));
     if has_nometa && case.policies.iter().any(|p| p.needs_metadata()) {
         obs.label("metadata-less-path-under-metadata-policy");
